@@ -391,6 +391,12 @@ fn base_uni_mul() -> Base {
 }
 
 fn base_batch() -> Base {
+    base_batch_sized(3)
+}
+
+/// `n_adds` additions: a larger value gives the ALU table a different height from the Const / Public
+/// tables (the FRI input batches then hold matrices of several heights).
+fn base_batch_sized(n_adds: usize) -> Base {
     let cfg = make_config(0);
     // a small circuit: x*3 + c = y with a public y, plus a short add chain
     let mut b = CircuitBuilder::<F>::new();
@@ -399,7 +405,7 @@ fn base_batch() -> Base {
     let three = b.alloc_const(F::from_u64(3), "3");
     let m = b.mul(x, three);
     let mut acc = m;
-    for _ in 0..3 {
+    for _ in 0..n_adds {
         acc = b.add(acc, x);
     }
     b.connect(acc, y);
@@ -409,7 +415,7 @@ fn base_batch() -> Base {
         get_airs_and_degrees_with_prep::<MyConfig, _, 1>(&circuit, &packing, &[], &[], ConstraintProfile::Standard).unwrap();
     let (airs, degrees): (Vec<_>, Vec<usize>) = airs_degrees.into_iter().unzip();
     let mut runner = circuit.runner();
-    runner.set_public_inputs(&[F::from_u64(30), F::from_u64(5)]).unwrap();
+    runner.set_public_inputs(&[F::from_u64(5 * (3 + n_adds as u64)), F::from_u64(5)]).unwrap();
     let traces = runner.run().unwrap();
     let pd = ProverData::from_airs_and_degrees(&cfg, &airs, &degrees);
     let cpd = CircuitProverData::new(pd, prim, nonprim);
@@ -432,7 +438,7 @@ fn base_batch() -> Base {
 /// over a real proof whose tables have different heights) built `n` times in this process; one line per
 /// build with the circuit's fingerprint (counts + order-sensitive hash of the op list).
 pub fn verifier_circuit_fingerprints(n: usize) -> Vec<String> {
-    let base = base_batch();
+    let base = base_batch_sized(45);
     (0..n).map(|_| format!("{:?}", base.run(&base.input).0)).collect()
 }
 
